@@ -75,6 +75,12 @@ def cases(tier, seed):
     # the seed of the shifted run is a saved state of the unshifted problem, gauge-transformed by the user
     for d, biased, ramp in itertools.product(devs[:1] if quick else devs[:2], (False, True), (0.0, 0.5)):
         out.append(dict(fam="run", dev=d, biased=biased, screening=False, shift=[2.5, -1.5], ramp=ramp, seed_gauge="other"))
+    # both solvers of a pair exist before either is run (a sweep prepared in advance), run in both orders
+    for d, biased, ramp, order in itertools.product(devs[:1] if quick else devs[:2], (False, True), (0.0, 0.5), ("ab", "ba")):
+        out.append(dict(fam="run", dev=d, biased=biased, screening=False, shift=[2.5, -1.5], ramp=ramp, prepared=order))
+    if not quick:
+        for d, order in itertools.product(devs[:2], ("ab", "ba")):
+            out.append(dict(fam="run", dev=d, biased=False, screening=True, shift=[40.0, 25.0], ramp=0.0, prepared=order))
     # thermalisation first: the recorded stage restarts step counter and clock on a solver whose operators hold the last potential
     for d, shift, (ramp, fz) in itertools.product(devs[:1] if quick else devs[:2], ((40.0, 25.0), (2.5, -1.5)), ((0.5, False), (4.0, True))):
         out.append(dict(fam="run", dev=d, biased=False, screening=False, shift=list(shift), ramp=ramp, from_zero=fz, thermal=True))
@@ -245,6 +251,9 @@ def run_run(case):
         with h5py.File(s0.path, "r+") as f:
             f["data/0/psi"][...] = psi0
         seed = tdgl.Solution.from_hdf5(s0.path)
+        if case.get("prepared"):
+            # both problems of the pair are set up (documented TDGLSolver objects) before either of them is run
+            return tdgl.TDGLSolver(dev, opts(f"run-{tag}.h5", nsteps), applied_vector_potential=A, seed_solution=seed, **kw), chi
         tdgl.solve(dev, opts(f"run-{tag}.h5", nsteps), applied_vector_potential=A, seed_solution=seed, **kw)
         frames, _ = drivers.read_frames(f"run-{tag}.h5")
         return frames, chi
@@ -252,6 +261,12 @@ def run_run(case):
     try:
         fa, _ = run(0.0, 0.0, "a")
         fb, chi = run(case["shift"][0], case["shift"][1], "b")
+        if case.get("prepared"):
+            order = (fa, fb) if case["prepared"] == "ab" else (fb, fa)
+            for sv in order:
+                sv.solve()
+            fa, _ = drivers.read_frames("run-a.h5")
+            fb, _ = drivers.read_frames("run-b.h5")
     except RuntimeError as exc:
         if "converge" not in str(exc):
             raise
